@@ -691,7 +691,13 @@ func constants(repo string) {
 	up := findFunc(svc, "packageParse", "unpack")
 	if up != nil {
 		lc := constBlock(up)
-		fmt.Fprintf(&out, "Definition gen_stream_delimiter : N := %d.\n\n", lc["sign"])
+		if v, ok := lc["sign"]; ok {
+			fmt.Fprintf(&out, "Definition gen_stream_delimiter : N := %d.\n\n", v)
+		} else {
+			// the delimiter is no longer a local constant `sign` of unpack (e.g. moved to package level under
+			// another name): not recognised, the definition is withheld
+			fail("stream_delimiter", "local constant sign of packageParse.unpack not found")
+		}
 	} else {
 		fail("stream_delimiter", "unpack not found")
 	}
@@ -3304,13 +3310,15 @@ func attachLayout(repo string) {
 // ==== String() methods: inventory of partial operations (C03: "Rendering any successfully parsed value as text is
 // likewise total") =============================================================================================
 // For every method `String() string` of protocol/model, protocol/jt808, protocol/jt1078 and shared/consts:
-//   gen_string_methods  : the receivers (inventory)
-//   gen_string_ops      : (receiver, kind, count) for every kind of operation that can panic or fail to terminate and
-//                         occurs in the body (closures included): index, slice, assert, div, deref, panic, for (a loop
-//                         that is not a range), goto
-//   gen_string_callees  : what the bodies call, apart from fmt.*, strings.*, sort.*, strconv.*, builtins and
-//                         conversions: ".Method" for a method of any receiver, "pkg.Func" for another package's
-//                         function, "name" for a function of the same package
+//
+//	gen_string_methods  : the receivers (inventory)
+//	gen_string_ops      : (receiver, kind, count) for every kind of operation that can panic or fail to terminate and
+//	                      occurs in the body (closures included): index, slice, assert, div, deref, panic, for (a loop
+//	                      that is not a range), goto
+//	gen_string_callees  : what the bodies call, apart from fmt.*, strings.*, sort.*, strconv.*, builtins and
+//	                      conversions: ".Method" for a method of any receiver, "pkg.Func" for another package's
+//	                      function, "name" for a function of the same package
+//
 // The obligations (Gen/TablesOk_strings.v) bound the operations by an audited table and the callees by an audited set.
 func stringOps(repo string) {
 	type key struct{ recv, kind string }
@@ -3318,6 +3326,12 @@ func stringOps(repo string) {
 	var methods []string
 	callees := map[string]bool{}
 	basePkgs := map[string]bool{"fmt": true, "strings": true, "sort": true, "strconv": true}
+	// methods reported by NAME (audited in Gen/TablesOk_strings.v) instead of being walked: the type's encoder and
+	// constants, and other String methods (inventoried themselves)
+	byName := map[string]bool{"String": true, "Encode": true, "encode": true, "Protocol": true, "protocolDiff": true, "ReplyProtocol": true}
+	// methods of strings.Builder / bytes.Buffer (no type information: by name, only when the package declares no
+	// method of that name)
+	stdMethods := map[string]bool{"WriteString": true, "WriteByte": true, "WriteRune": true, "Write": true, "Len": true, "Grow": true, "Reset": true, "Cap": true}
 	builtins := map[string]bool{"len": true, "cap": true, "append": true, "make": true, "copy": true, "new": true, "min": true, "max": true, "clear": true, "delete": true,
 		"string": true, "int": true, "int8": true, "int16": true, "int32": true, "int64": true, "uint": true, "uint8": true, "uint16": true, "uint32": true,
 		"uint64": true, "byte": true, "rune": true, "float32": true, "float64": true, "bool": true}
@@ -3329,6 +3343,22 @@ func stringOps(repo string) {
 		}
 		sort.Strings(names)
 		short := filepath.Base(dir)
+		// the package's own functions and methods: a helper a String body calls is walked as part of that body
+		// (extracting a block into a helper must not change the inventory); methods are found by name, whatever
+		// the receiver (no type information: every candidate is walked)
+		pkgFuncs := map[string][]*ast.FuncDecl{}
+		pkgMethods := map[string][]*ast.FuncDecl{}
+		for _, n := range names {
+			for _, d := range files[n].Decls {
+				if fd, ok := d.(*ast.FuncDecl); ok && fd.Body != nil {
+					if fd.Recv == nil {
+						pkgFuncs[fd.Name.Name] = append(pkgFuncs[fd.Name.Name], fd)
+					} else {
+						pkgMethods[fd.Name.Name] = append(pkgMethods[fd.Name.Name], fd)
+					}
+				}
+			}
+		}
 		for _, n := range names {
 			f := files[n]
 			imports := map[string]bool{}
@@ -3363,67 +3393,91 @@ func stringOps(repo string) {
 				}
 				recv = short + "." + recv
 				methods = append(methods, recv)
-				locals := map[string]bool{} // closures bound in the body: their bodies are walked with the rest
-				ast.Inspect(fd.Body, func(x ast.Node) bool {
-					if as, ok := x.(*ast.AssignStmt); ok {
-						for i, r := range as.Rhs {
-							if _, ok := r.(*ast.FuncLit); ok && i < len(as.Lhs) {
-								if id, ok := as.Lhs[i].(*ast.Ident); ok {
-									locals[id.Name] = true
+				visited := map[*ast.FuncDecl]bool{fd: true}
+				var walk func(body *ast.BlockStmt)
+				walk = func(body *ast.BlockStmt) {
+					locals := map[string]bool{} // closures bound in the body: their bodies are walked with the rest
+					ast.Inspect(body, func(x ast.Node) bool {
+						if as, ok := x.(*ast.AssignStmt); ok {
+							for i, r := range as.Rhs {
+								if _, ok := r.(*ast.FuncLit); ok && i < len(as.Lhs) {
+									if id, ok := as.Lhs[i].(*ast.Ident); ok {
+										locals[id.Name] = true
+									}
 								}
 							}
 						}
+						return true
+					})
+					inline := func(cands []*ast.FuncDecl) {
+						for _, c := range cands {
+							if !visited[c] {
+								visited[c] = true
+								walk(c.Body)
+							}
+						}
 					}
-					return true
-				})
-				ast.Inspect(fd.Body, func(x ast.Node) bool {
-					switch e := x.(type) {
-					case *ast.IndexExpr:
-						ops[key{recv, "index"}]++
-					case *ast.SliceExpr:
-						ops[key{recv, "slice"}]++
-					case *ast.TypeAssertExpr:
-						ops[key{recv, "assert"}]++
-					case *ast.StarExpr:
-						ops[key{recv, "deref"}]++
-					case *ast.BinaryExpr:
-						if e.Op == token.QUO || e.Op == token.REM {
-							ops[key{recv, "div"}]++
-						}
-					case *ast.AssignStmt:
-						if e.Tok == token.QUO_ASSIGN || e.Tok == token.REM_ASSIGN {
-							ops[key{recv, "div"}]++
-						}
-					case *ast.ForStmt:
-						ops[key{recv, "for"}]++
-					case *ast.BranchStmt:
-						if e.Tok == token.GOTO {
-							ops[key{recv, "goto"}]++
-						}
-					case *ast.CallExpr:
-						switch fn := e.Fun.(type) {
-						case *ast.Ident:
-							switch {
-							case fn.Name == "panic":
-								ops[key{recv, "panic"}]++
-							case builtins[fn.Name] || locals[fn.Name]:
+					ast.Inspect(body, func(x ast.Node) bool {
+						switch e := x.(type) {
+						case *ast.IndexExpr:
+							ops[key{recv, "index"}]++
+						case *ast.SliceExpr:
+							ops[key{recv, "slice"}]++
+						case *ast.TypeAssertExpr:
+							ops[key{recv, "assert"}]++
+						case *ast.StarExpr:
+							ops[key{recv, "deref"}]++
+						case *ast.BinaryExpr:
+							if e.Op == token.QUO || e.Op == token.REM {
+								ops[key{recv, "div"}]++
+							}
+						case *ast.AssignStmt:
+							if e.Tok == token.QUO_ASSIGN || e.Tok == token.REM_ASSIGN {
+								ops[key{recv, "div"}]++
+							}
+						case *ast.ForStmt:
+							ops[key{recv, "for"}]++
+						case *ast.BranchStmt:
+							if e.Tok == token.GOTO {
+								ops[key{recv, "goto"}]++
+							}
+						case *ast.CallExpr:
+							switch fn := e.Fun.(type) {
+							case *ast.Ident:
+								switch {
+								case fn.Name == "panic":
+									ops[key{recv, "panic"}]++
+								case builtins[fn.Name] || locals[fn.Name]:
+								case len(pkgFuncs[fn.Name]) > 0:
+									inline(pkgFuncs[fn.Name])
+								default:
+									callees[fn.Name] = true
+								}
+							case *ast.SelectorExpr:
+								if id, ok := fn.X.(*ast.Ident); ok && imports[id.Name] {
+									if !basePkgs[id.Name] {
+										callees[id.Name+"."+fn.Sel.Name] = true
+									}
+								} else {
+									m := fn.Sel.Name
+									switch {
+									case byName[m]:
+										callees["."+m] = true
+									case len(pkgMethods[m]) > 0:
+										inline(pkgMethods[m])
+									case stdMethods[m]:
+									default:
+										callees["."+m] = true
+									}
+								}
 							default:
-								callees[fn.Name] = true
+								callees["(computed)"] = true
 							}
-						case *ast.SelectorExpr:
-							if id, ok := fn.X.(*ast.Ident); ok && imports[id.Name] {
-								if !basePkgs[id.Name] {
-									callees[id.Name+"."+fn.Sel.Name] = true
-								}
-							} else {
-								callees["."+fn.Sel.Name] = true
-							}
-						default:
-							callees["(computed)"] = true
 						}
-					}
-					return true
-				})
+						return true
+					})
+				}
+				walk(fd.Body)
 			}
 		}
 	}
@@ -3467,19 +3521,45 @@ func stringOps(repo string) {
 // ==== END String() methods ====================================================================================
 
 // ==== default file handler of the attachment server (C19) =====================================================
-//   gen_file_calls  : every call in package attachment (non-test files) of a function of package os / ioutil that
-//                     creates, renames, links or removes a file-system entry, or changes the working directory, as
-//                     (function, first argument): "lit:<text>" for a string literal, "id:<name>" for an identifier,
-//                     "expr" otherwise; sorted
-//   gen_file_save_format / gen_file_save_args : savePath := fmt.Sprintf(<format>, <idents>...) of the save loop
-//   gen_file_filter_names / gen_file_filter_chars : the names compared with == and the character set handed to
-//                     strings.ContainsAny in the condition that guards `continue` in the save loop (as byte lists)
-//   gen_file_phone  : the selector chain the directory name `phone` is assigned from
+//
+//	gen_file_calls  : every call in package attachment (non-test files) of a function of package os / ioutil that
+//	                  creates, renames, links or removes a file-system entry, or changes the working directory, as
+//	                  (function, first argument): "lit:<text>" for a string literal, "id:<name>" for an identifier,
+//	                  "expr" otherwise; sorted
+//	gen_file_save_format / gen_file_save_args : savePath := fmt.Sprintf(<format>, <idents>...) of the save loop
+//	gen_file_filter_names / gen_file_filter_chars : the names compared with == and the character set handed to
+//	                  strings.ContainsAny in the condition that guards `continue` in the save loop (as byte lists)
+//	gen_file_phone  : the selector chain the directory name `phone` is assigned from
 func fileHandler(repo string) {
 	files := parseDir(filepath.Join(repo, "attachment"))
 	creating := map[string]bool{"OpenFile": true, "Create": true, "CreateTemp": true, "Mkdir": true, "MkdirAll": true, "MkdirTemp": true,
 		"WriteFile": true, "Rename": true, "Symlink": true, "Link": true, "Remove": true, "RemoveAll": true, "Chdir": true, "Truncate": true,
 		"TempFile": true, "TempDir": true, "NewFile": true, "Chmod": true, "Chown": true, "OpenRoot": true}
+	// package-level string constants / variables initialised with a literal: a name for a literal is the literal
+	strConsts := map[string]string{}
+	for _, f := range files {
+		for _, d := range f.Decls {
+			gd, ok := d.(*ast.GenDecl)
+			if !ok || (gd.Tok != token.CONST && gd.Tok != token.VAR) {
+				continue
+			}
+			for _, sp := range gd.Specs {
+				vs, ok := sp.(*ast.ValueSpec)
+				if !ok {
+					continue
+				}
+				for i, nm := range vs.Names {
+					if i < len(vs.Values) {
+						if lit, ok := vs.Values[i].(*ast.BasicLit); ok && lit.Kind == token.STRING && gd.Tok == token.CONST {
+							if v, err := strconv.Unquote(lit.Value); err == nil {
+								strConsts[nm.Name] = v
+							}
+						}
+					}
+				}
+			}
+		}
+	}
 	argOf := func(e ast.Expr) string {
 		switch a := e.(type) {
 		case *ast.BasicLit:
@@ -3489,6 +3569,9 @@ func fileHandler(repo string) {
 				}
 			}
 		case *ast.Ident:
+			if v, ok := strConsts[a.Name]; ok {
+				return "lit:" + v
+			}
 			return "id:" + a.Name
 		}
 		return "expr"
@@ -3737,9 +3820,11 @@ func fileHandler(repo string) {
 // ==== END default file handler ================================================================================
 
 // ==== timers, sleeps and deadlines of the server packages (C11 C12 C13) ========================================
-//   gen_time_calls : (package, callee, count) for every call, in the non-test files of service and attachment, of
-//                    time.After / NewTimer / AfterFunc / Tick / NewTicker / Sleep, context.WithTimeout / WithDeadline,
-//                    and of a method named SetDeadline / SetReadDeadline / SetWriteDeadline; sorted
+//
+//	gen_time_calls : (package, callee, count) for every call, in the non-test files of service and attachment, of
+//	                 time.After / NewTimer / AfterFunc / Tick / NewTicker / Sleep, context.WithTimeout / WithDeadline,
+//	                 and of a method named SetDeadline / SetReadDeadline / SetWriteDeadline; sorted
+//
 // The scheduler models (Model/Writer.v, Model/Registry.v) contain exactly the waits the code has: a new timer or
 // deadline anywhere in these packages is a behaviour the models do not have.
 func timeCalls(repo string) {
@@ -3801,8 +3886,10 @@ func timeCalls(repo string) {
 // ==== END timers ================================================================================================
 
 // ==== explicit aborts (C03 C10 C13) ============================================================================
-//   gen_abort_calls : (package directory, callee, count) for every call, in the non-test files of the library's
-//                     packages, of the builtin panic, os.Exit, runtime.Goexit and log.Fatal* / log.Panic*; sorted.
+//
+//	gen_abort_calls : (package directory, callee, count) for every call, in the non-test files of the library's
+//	                  packages, of the builtin panic, os.Exit, runtime.Goexit and log.Fatal* / log.Panic*; sorted.
+//
 // The models have no such step: a decoder returns an error, a connection ends, the server goes on.
 func abortCalls(repo string) {
 	type key struct{ pkg, callee string }
